@@ -2,6 +2,7 @@
 C09 — the invariant of the backend model and the step relations used to thread it through every function.
 -/
 import NV.C09.Model
+import NV.C09.Spec
 
 namespace NV.C09
 
@@ -162,6 +163,91 @@ theorem firstFree_slot_empty (l : List (Option Conn)) (n : Nat) (hn : 2 ≤ n) :
       simp at hge; omega
 
 
+/-! ## trace blocks -/
+
+/-- an event that is neither a crash nor the announcement of an uncaught error -/
+def quiet : Ev → Bool
+  | .crash _ => false
+  | .xErr _ => false
+  | _ => true
+
+/-- a block of events (newest first) appended by a step: no crash event; chronologically every `x err who` is
+    directly followed by its report `meh 0 boom who` (the judge's `reportOk`), in particular none is left dangling -/
+structure BlockOK (es : List Ev) : Prop where
+  noCrash : ∀ e ∈ es, isCrash e = false
+  report : reportOk es.reverse = true
+  closed : ∀ who, es.head? ≠ some (.xErr who)
+
+theorem reportOk_append : ∀ (a b : List Ev), reportOk a = true → (∀ who, a.getLast? ≠ some (.xErr who)) →
+    reportOk b = true → reportOk (a ++ b) = true := by
+  intro a
+  induction a with
+  | nil => intro b _ _ hb; exact hb
+  | cons e rest ih =>
+    intro b ha hl hb
+    have hl' : rest ≠ [] → ∀ who, rest.getLast? ≠ some (.xErr who) := by
+      intro hne who
+      have := hl who
+      rwa [List.getLast?_cons_of_ne_nil hne] at this
+    cases e with
+    | xErr who =>
+      cases rest with
+      | nil => simp [reportOk] at ha
+      | cons m r =>
+        simp only [reportOk, Bool.and_eq_true] at ha
+        simp only [List.cons_append, reportOk, Bool.and_eq_true]
+        refine ⟨?_, ih b ha.2 (hl' (by simp)) hb⟩
+        have h1 := ha.1
+        cases m with
+        | meh c msg => cases c <;> exact h1
+        | _ => exact h1
+    | _ =>
+      all_goals
+        simp only [reportOk] at ha
+        simp only [List.cons_append, reportOk]
+        cases rest with
+        | nil => exact hb
+        | cons m r => exact ih b ha (hl' (by simp)) hb
+
+theorem BlockOK.nil : BlockOK [] := ⟨by simp, rfl, by simp⟩
+
+theorem BlockOK.single (e : Ev) (q : quiet e = true) : BlockOK [e] := by
+  cases e <;> first
+    | (simp [quiet] at q; done)
+    | exact ⟨by simp [isCrash], rfl, by simp⟩
+
+/-- block `b` appended after block `a` (newest first: `b ++ a`) -/
+theorem BlockOK.append {a b : List Ev} (ha : BlockOK a) (hb : BlockOK b) : BlockOK (b ++ a) := by
+  refine ⟨?_, ?_, ?_⟩
+  · intro e he
+    rcases List.mem_append.mp he with h | h
+    · exact hb.noCrash e h
+    · exact ha.noCrash e h
+  · rw [List.reverse_append]
+    apply reportOk_append _ _ ha.report _ hb.report
+    intro who
+    rw [List.getLast?_reverse]
+    exact ha.closed who
+  · intro who
+    cases b with
+    | nil => exact ha.closed who
+    | cons x xs => exact hb.closed who
+
+/-- the trace of `w'` extends the trace of `w` by a well-formed block -/
+def TrExt (w w' : W) : Prop := ∃ es, w'.trace = es ++ w.trace ∧ BlockOK es
+
+theorem TrExt.of_eq {w w' : W} (h : w'.trace = w.trace) : TrExt w w' := ⟨[], by simpa using h, BlockOK.nil⟩
+theorem TrExt.refl (w : W) : TrExt w w := TrExt.of_eq rfl
+theorem TrExt.one {w w' : W} {e : Ev} (h : w'.trace = e :: w.trace) (q : quiet e = true) : TrExt w w' :=
+  ⟨[e], h, BlockOK.single e q⟩
+theorem TrExt.trans {a b c : W} (h1 : TrExt a b) (h2 : TrExt b c) : TrExt a c := by
+  obtain ⟨e1, t1, b1⟩ := h1
+  obtain ⟨e2, t2, b2⟩ := h2
+  exact ⟨e2 ++ e1, by rw [t2, t1, List.append_assoc], b1.append b2⟩
+
+/-- trace part of a frame step: unchanged, or one quiet event -/
+macro "trx" : tactic => `(tactic| first | exact TrExt.of_eq rfl | exact TrExt.one rfl rfl)
+
 /-! ## the invariant -/
 
 /-- What holds at every point where LPC code may run or the loop is at its head:
@@ -189,20 +275,22 @@ structure Rel (w w' : W) : Prop where
   ulen : w'.users.map List.length = w.users.map List.length
   mode : w'.mode = w.mode
   ctx : w'.ctxDepth = w.ctxDepth
+  tr : TrExt w w'
 
 /-- the weaker relation of the steps that may accept connections -/
 structure CRel (w w' : W) : Prop where
   alloc : w.users.isSome = true → w'.users.isSome = true
   mode : w'.mode = w.mode
   ctx : w'.ctxDepth = w.ctxDepth
+  tr : TrExt w w'
 
 def Step (w w' : W) : Prop := Inv w → Inv w' ∧ Rel w w'
 def CStep (w w' : W) : Prop := Inv w → Inv w' ∧ CRel w w'
 
-theorem Rel.refl (w : W) : Rel w w := ⟨fun _ c h hc => ⟨c, h, hc⟩, fun _ _ _ _ _ h => h, rfl, rfl, rfl⟩
+theorem Rel.refl (w : W) : Rel w w := ⟨fun _ c h hc => ⟨c, h, hc⟩, fun _ _ _ _ _ h => h, rfl, rfl, rfl, TrExt.refl w⟩
 
 theorem Rel.trans {a b c : W} (h1 : Rel a b) (h2 : Rel b c) : Rel a c := by
-  refine ⟨?_, ?_, by rw [h2.ulen, h1.ulen], by rw [h2.mode, h1.mode], by rw [h2.ctx, h1.ctx]⟩
+  refine ⟨?_, ?_, by rw [h2.ulen, h1.ulen], by rw [h2.mode, h1.mode], by rw [h2.ctx, h1.ctx], h1.tr.trans h2.tr⟩
   · intro id x hx hc
     obtain ⟨y, hy, hyc⟩ := h1.closing id x hx hc
     exact h2.closing id y hy hyc
@@ -210,13 +298,13 @@ theorem Rel.trans {a b c : W} (h1 : Rel a b) (h2 : Rel b c) : Rel a c := by
     obtain ⟨y, hy, hyc⟩ := h1.closing id x hx hc
     exact h2.owner id y o hy hyc (h1.owner id x o hx hc ho)
 
-theorem CRel.refl (w : W) : CRel w w := ⟨id, rfl, rfl⟩
+theorem CRel.refl (w : W) : CRel w w := ⟨id, rfl, rfl, TrExt.refl w⟩
 
 theorem CRel.trans {a b c : W} (h1 : CRel a b) (h2 : CRel b c) : CRel a c :=
-  ⟨fun h => h2.alloc (h1.alloc h), by rw [h2.mode, h1.mode], by rw [h2.ctx, h1.ctx]⟩
+  ⟨fun h => h2.alloc (h1.alloc h), by rw [h2.mode, h1.mode], by rw [h2.ctx, h1.ctx], h1.tr.trans h2.tr⟩
 
 theorem Rel.toCRel {a b : W} (h : Rel a b) : CRel a b := by
-  refine ⟨?_, h.mode, h.ctx⟩
+  refine ⟨?_, h.mode, h.ctx, h.tr⟩
   intro hs
   have := h.ulen
   cases ha : a.users with
@@ -250,12 +338,13 @@ structure Same (w w' : W) : Prop where
   inMeh : w'.inMeh = w.inMeh
   mode : w'.mode = w.mode
   ctx : w'.ctxDepth = w.ctxDepth
+  tr : TrExt w w'
 
-theorem Same.refl (w : W) : Same w w := ⟨rfl, rfl, rfl, rfl, rfl, rfl, rfl, rfl, rfl⟩
+theorem Same.refl (w : W) : Same w w := ⟨rfl, rfl, rfl, rfl, rfl, rfl, rfl, rfl, rfl, TrExt.refl w⟩
 theorem Same.trans {a b c : W} (h1 : Same a b) (h2 : Same b c) : Same a c :=
   ⟨by rw [h2.users, h1.users], by rw [h2.inter, h1.inter], by rw [h2.nextUser, h1.nextUser],
    by rw [h2.nextConnId, h1.nextConnId], by rw [h2.crashed, h1.crashed], by rw [h2.inError, h1.inError],
-   by rw [h2.inMeh, h1.inMeh], by rw [h2.mode, h1.mode], by rw [h2.ctx, h1.ctx]⟩
+   by rw [h2.inMeh, h1.inMeh], by rw [h2.mode, h1.mode], by rw [h2.ctx, h1.ctx], h1.tr.trans h2.tr⟩
 
 theorem findConn_congr {w w' : W} (h : w'.users = w.users) (id : Nat) : findConn w' id = findConn w id := by
   unfold findConn slots; rw [h]
@@ -263,7 +352,7 @@ theorem findConn_congr {w w' : W} (h : w'.users = w.users) (id : Nat) : findConn
 theorem Same.step {w w' : W} (h : Same w w') : Step w w' := by
   intro i
   refine ⟨⟨by rw [h.crashed]; exact i.crashed, by rw [h.inError]; exact i.inError, by rw [h.inMeh]; exact i.inMeh,
-      ?_, ?_, ?_, ?_, ?_, ?_⟩, ?_, ?_, by rw [h.users], h.mode, h.ctx⟩
+      ?_, ?_, ?_, ?_, ?_, ?_⟩, ?_, ?_, by rw [h.users], h.mode, h.ctx, h.tr⟩
   · intro o id ho; rw [findConn_congr h.users]; rw [h.inter] at ho; exact i.live o id ho
   · intro o o' id h1 h2; rw [h.inter] at h1 h2; exact i.inj o o' id h1 h2
   · intro l hl; rw [h.users] at hl; exact i.len l hl
@@ -281,11 +370,14 @@ theorem Inv.ctx_irrel {w : W} (i : Inv w) (n : Nat) : Inv { w with ctxDepth := n
 theorem Step.bracket {w w2 : W} (h : Step (pushCtx w) w2) : Step w (popCtx w2) := by
   intro i
   obtain ⟨i2, r⟩ := h (i.ctx_irrel _)
-  refine ⟨i2.ctx_irrel _, ?_, ?_, r.ulen, r.mode, ?_⟩
+  refine ⟨i2.ctx_irrel _, ?_, ?_, r.ulen, r.mode, ?_, ?_⟩
   · intro id c hc hcl
     exact r.closing id c hc hcl
   · intro id c o hc hcl ho
     exact r.owner id c o hc hcl ho
+  rotate_left
+  · obtain ⟨es, t, b⟩ := r.tr
+    exact ⟨es, t, b⟩
   · show w2.ctxDepth - 1 = w.ctxDepth
     have := r.ctx
     have e : (pushCtx w).ctxDepth = w.ctxDepth + 1 := rfl
